@@ -71,6 +71,36 @@ pub struct Out {
     pub events: Vec<(usize, bool)>,
 }
 
+/// Which levels a highlight group styles is the library's choice (the property only says that highlighting
+/// adds styling without changing the text): it is read off the plain probe `{h(x)}` once per level, and
+/// every highlight group of every pattern and nesting must then behave like that probe, with a reset at
+/// the end of each styled group.
+fn level_is_styled(level: Level) -> bool {
+    static TABLE: std::sync::OnceLock<[bool; 5]> = std::sync::OnceLock::new();
+    let t = TABLE.get_or_init(|| {
+        let mut t = [false; 5];
+        for (i, l) in [Level::Error, Level::Warn, Level::Info, Level::Debug, Level::Trace].iter().enumerate() {
+            let enc = log4rs::encode::pattern::PatternEncoder::new("{h(x)}");
+            let mut sink = crate::engine::capture::Sink::new(None);
+            let _ = log4rs::encode::Encode::encode(&enc, &mut sink, &log::Record::builder().level(*l).args(format_args!("m")).build());
+            t[i] = sink.styles.first().map_or(false, |e| !(e.text.is_none() && e.background.is_none() && e.intense.is_none()));
+        }
+        t
+    });
+    t[match level {
+        Level::Error => 0,
+        Level::Warn => 1,
+        Level::Info => 2,
+        Level::Debug => 3,
+        Level::Trace => 4,
+    }]
+}
+
+/// true if the plain probe styles at least one level ("highlight groups add styling")
+pub fn some_level_is_styled() -> bool {
+    [Level::Error, Level::Warn, Level::Info, Level::Debug, Level::Trace].iter().any(|l| level_is_styled(*l))
+}
+
 pub struct Env {
     pub thread_name: Option<String>,
     pub tid: String,
@@ -125,7 +155,7 @@ pub fn render(items: &[Item], r: &Rec, env: &Env) -> Out {
                     }
                     "h" | "highlight" => {
                         let body = render(&args[0], r, env);
-                        let styled = matches!(r.level, Level::Error | Level::Warn | Level::Info | Level::Trace);
+                        let styled = level_is_styled(r.level);
                         if styled {
                             inner.events.push((0, false));
                         }
@@ -459,8 +489,11 @@ pub fn run(ctx: &Ctx) -> Report {
         "rule",
         "E-ENUM over pattern ASTs (groups A-D): each AST is printed to concrete syntax, compiled with PatternEncoder::new and encoded for 5 records \
          (all levels, empty/Unicode/syntax-character messages, absent module/file/line, MDC present/absent) on a named and on an unnamed thread; \
-         bytes and style events must equal the reference renderer's. Non-trivial = pattern with at least one formatter (distinct patterns counted by their syntax)",
+         bytes and style events must equal the reference renderer's (which levels are styled is read off the probe {h(x)}; at least one must be). Non-trivial = pattern with at least one formatter (distinct patterns counted by their syntax)",
     );
+    if !some_level_is_styled() {
+        rep.violation("highlight:adds-no-styling", "the probe {h(x)} requests no style at any of the five levels", json!({"pattern": "{h(x)}"}));
+    }
     // the generator's thorough domain is cheap enough for every run
     let groups = generate(Tier::Thorough);
     let recs = records();
